@@ -9,7 +9,7 @@ Python `decimal.Decimal` (C `_decimal`, default context) and `int(str)` as far a
                    libmpdec's `mpd_qset_string` grammar (sign, `inf|infinity`, `nan|snan` + payload digits,
                    digits with an optional point, optional exponent; case-insensitive).  Exponent limits of the
                    exact conversion (|exp| ≤ 10^18) are not modelled.
-* `decToStr`     — `str(d)`: to-scientific-string.
+* `decToStr`     — `str(d)`: to-scientific-string;  `decFormatF` — `format(d, "f")`: plain notation.
 * `quantize`     — `d.quantize(q)` for a finite quantum `q` of exponent `qe` under the default context
                    (prec 28, ROUND_HALF_EVEN, InvalidOperation trapped).
 * `sameQuantum`  — `d.same_quantum(q)` for a finite `q`.
@@ -148,6 +148,26 @@ def decToStr : Dec → Str
     else
       signStr neg ++ ds.take 1 ++ (if 1 ≥ ds.length then [] else '.' :: ds.drop 1)
         ++ (if left = 1 then [] else 'E' :: (if left - 1 < 0 then '-' else '+') :: pyStrNat (left - 1).natAbs)
+
+/-- `format(d, "f")` (no precision): plain notation.  Exponent ≥ 0: the digits followed by `exp` zeros (just
+    `0` for a zero coefficient); exponent < 0: the point is placed `-exp` digits from the right, with leading
+    `0.` and zeros where needed.  Non-finite values are written as `str` writes them. -/
+def decFormatF : Dec → Str
+  | .inf neg => signStr neg ++ "Infinity".toList
+  | .nan neg sig p =>
+    signStr neg ++ (if sig then "sNaN".toList else "NaN".toList) ++ (if p = 0 then [] else pyStrNat p)
+  | .fin neg c e =>
+    let ds := pyStrNat c
+    if e ≥ 0 then
+      if c = 0 then signStr neg ++ ['0'] else signStr neg ++ (ds ++ List.replicate e.toNat '0')
+    else
+      let left : Int := e + (ds.length : Int)
+      if left ≤ 0 then signStr neg ++ '0' :: '.' :: (List.replicate (-left).toNat '0' ++ ds)
+      else signStr neg ++ (ds.take left.toNat ++ '.' :: ds.drop left.toNat)
+
+def Dec.isFinite : Dec → Bool
+  | .fin .. => true
+  | _ => false
 
 /-! ### arithmetic under the default context -/
 
